@@ -8,6 +8,20 @@ ROOT = os.path.dirname(os.path.dirname(os.path.abspath(__file__)))
 
 # id -> (category, technique, text, note, design_ref)
 CHECKS = {
+    "C14": (
+        "exploration",
+        "reference-interpreter monitor on parsed final HTML: per element occurrence the set of data-djc-id markers vs the instances for which the element is top-level output; id echo links model instances to real ids; deep root chains",
+        "9k (quick) / 100k (thorough) E1 programs built from uniquely named elements (0..n root elements, text-only roots, nested elements, components as roots, components in loops/slots/fills) are rendered in both modes; the final HTML is parsed and every element's marker set must equal the interpreter's instance set, with echoed Component.id == marker id and all ids distinct; root chains of depth 50-300 (quick) / 500-2000 (thorough) must render without recursion error with the leaf roots carrying every id of the chain.",
+        "html.parser is the trusted reader; the dynamic wrapper is not exercised (its id cannot be echoed).",
+        "DESIGN.md §2 C14",
+    ),
+    "C05": (
+        "exploration",
+        "reference-interpreter monitor (providers follow the rendered structure) on consumer echoes, history monitor over sequences of renders in one process, quiescent census invariant on the provide registries",
+        "3k programs + 300 histories (quick) / 100k + 10k (thorough): providers at page level and in component templates, nested/shadowing, around slots, inside fills, in loops, with sibling and descendant consumers (with and without default); each consumer echoes the injected provider instance and kwargs; output or exception class must equal the interpreter's in both modes and at every position of a history that also contains failing renders; after every successful top-level render the reflection-found provide registries must not have grown.",
+        "Providers between a component tag and its fills are not generated; registry residue of *failed* renders is judged by C06.",
+        "DESIGN.md §2 C05",
+    ),
     "C01": (
         "exploration",
         "reference-interpreter monitor on token-identifying output of generated component programs, three render routes, logical divergence guard on component instantiations, AST shrinker for witnesses",
